@@ -264,8 +264,12 @@ def linear_steady_exists(spec, params, flat):
     res = np.max(np.abs(A @ sol - b)) if len(b) else 0.0
     sv = np.linalg.svd(A, compute_uv=False)
     # near-singular but consistent-by-rounding systems are not certified either
-    small = sv[sv > 1e-12 * sv.max()].min() if sv.size else 1.0
-    return bool(res <= 1e-10 * (1 + np.max(np.abs(b), initial=0))) and (small / sv.max() > 1e-9 if sv.size else True)
+    consistent = bool(res <= 1e-10 * (1 + np.max(np.abs(b), initial=0)))
+    if not sv.size or sv.max() == 0:
+        # no unknown enters (pure random walk x = x[-1] + e): any level solves it iff the constants vanish
+        return consistent
+    small = sv[sv > 1e-12 * sv.max()].min()
+    return consistent and bool(small / sv.max() > 1e-9)
 
 
 
